@@ -169,7 +169,8 @@ example : ∃ p m, compileFile [] [] [.expr 1 (.ident 1 "x")] = .error (.err p m
     function in the constant pool have at most 256 locals; each of their instruction streams
     decodes completely into instructions with known opcodes and full operands; and in each stream
     the operand of every JUMP / JUMPFALSY / ANDJUMP / ORJUMP and both operands of every SETUPTRY
-    are instruction boundaries of that stream (0 for an absent catch) -/
+    are instruction boundaries of that stream (0 for an absent catch); and the constant index of
+    every CONSTANT / CLOSURE instruction is below the size of the constant pool -/
 theorem compile_wf_partial (builtins : List (String × Nat)) (disabled : List String) (file : List Stmt)
     (hok : okSs file = true) (bc : Bytecode) (h : compileFile builtins disabled file = .ok bc) : WFMain bc := by
   have hg := goodP_compileProg file hok (initState builtins disabled) (inv_initState builtins disabled)
@@ -188,16 +189,20 @@ theorem compile_wf_partial (builtins : List (String × Nat)) (disabled : List St
     here for the main function; likewise for function constants); and the claim covers scanner,
     parser, optimizer and module import.  Proved: `compile_no_panic` (all of the panic-freedom of the
     compiler proper), `compile_wf_partial` (frame sizes, decodable streams, jump / try targets are
-    boundaries, for main and all function constants).  Not proved (checked on real bytecode by the
-    structural scan of stream `compilefuzz`): a jump target is *strictly* inside the stream (the
-    RETURN appended by `Bytecode()`), constant / local / free / builtin indices are in range; not
-    modelled: scanner / parser / optimizer / imports. -/
+    boundaries, CONSTANT / CLOSURE indices are in range, for main and all function constants).  Not
+    proved (checked on real bytecode by the structural scan of stream `compilefuzz`): a jump target
+    is *strictly* inside the stream (the RETURN appended by `Bytecode()`), global-name / local / free /
+    builtin indices are in range; not modelled: scanner / parser / optimizer / imports. -/
 def C05_full : Prop :=
   ∀ (builtins : List (String × Nat)) (disabled : List String) (file : List Stmt), okSs file = true →
     match compileFile builtins disabled file with
     | .ok bc => WFMain bc ∧
-        (∀ p op, Bd bc.main.insts p → bc.main.insts[p]? = some op → op.toNat = OpConstant →
+        (∀ p op, Bd bc.main.insts p → bc.main.insts[p]? = some op →
+          (op.toNat = OpGetGlobal ∨ op.toNat = OpSetGlobal) →
           readBE bc.main.insts (p + 1) 2 < bc.constants.size) ∧
+        (∀ p op, Bd bc.main.insts p → bc.main.insts[p]? = some op →
+          (op.toNat = OpGetLocal ∨ op.toNat = OpSetLocal ∨ op.toNat = OpDefineLocal) →
+          readBE bc.main.insts (p + 1) 1 < bc.main.numLocals) ∧
         (∀ p op, Bd bc.main.insts p → bc.main.insts[p]? = some op →
           (op.toNat = OpJump ∨ op.toNat = OpJumpFalsy ∨ op.toNat = OpAndJump ∨ op.toNat = OpOrJump) →
           Bd bc.main.insts (readBE bc.main.insts (p + 1) 4))
